@@ -210,6 +210,11 @@ impl PutQuery {
     }
 
     fn most_common_error(&self) -> Option<(u8, PutError)> {
+        // Concurrency errors only make sense for mutable items, whatever remote nodes claim.
+        if !matches!(self.request, PutRequestSpecific::PutMutable(_)) {
+            return None;
+        }
+
         self.errors
             .first()
             .and_then(|(count, error)| match error.code {
